@@ -327,15 +327,18 @@ theorem walkLe_ok : RuleOK .le walkLe := by
           obtain ⟨hx, hy⟩ := hmty _ hσ (Or.inl rfl)
           have hty' : (le_ y x).typeOf = some .bool := by
             rw [e]; first | exact typeOf_rel_mk (Or.inl rfl) _ (Or.inl ⟨hy, hx⟩) | exact typeOf_rel_mk (Or.inl rfl) _ (Or.inr ⟨hy, hx⟩)
-          refine ⟨hty', wf_mk' (by intro a ha; simp at ha; rcases ha with rfl | rfl <;> assumption) rfl hty',
-            fun I hI hd => ?_, fun s hs => ?_⟩
+          refine Res.of_hyp hty' (wf_mk' (by intro a ha; simp at ha; rcases ha with rfl | rfl <;> assumption) rfl hty')
+            (fun I hI _ => ?_) (fun I hI hd => ?_) (fun s hs => ?_)
+          rotate_left
+          · have hd1 := div0_args_false I .le _ p rfl hd _ (show Term.node .minus [x, y] q ∈ _ by simp)
+            have hd2 := div0_args_false I .minus _ q rfl hd1
+            rw [e, div0_plain I .le _ _ rfl (by simp)]
+            simp only [List.any_cons, List.any_nil, hd2 y (by simp), hd2 x (by simp), Bool.or_self]
+          rotate_left
           · obtain ⟨n, hn⟩ := eval_int hwx hx hI
             obtain ⟨m, hm'⟩ := eval_int hwy hy hI
-            have hd1 := div0_args_false I .le _ p rfl hd _ (show Term.node .minus [x, y] q ∈ _ by simp)
-            have hd2 := div0_args_false I .minus _ q rfl hd1
-            rw [e, eval_le, eval_le, eval_minus, eval_intc, hn, hm', div0_plain I .le _ _ rfl (by simp)]
-            simp only [Sem.sub, Sem.le, List.any_cons, List.any_nil, hd2 y (by simp), hd2 x (by simp),
-              Bool.or_self, and_true]
+            rw [e, eval_le, eval_le, eval_minus, eval_intc, hn, hm']
+            simp only [Sem.sub, Sem.le]
             congr 1
             rw [decide_eq_decide]; omega
           · rw [e] at hs
@@ -352,15 +355,18 @@ theorem walkLe_ok : RuleOK .le walkLe := by
           obtain ⟨hx, hy⟩ := hmty _ hσ (Or.inr rfl)
           have hty' : (le_ y x).typeOf = some .bool := by
             rw [e]; first | exact typeOf_rel_mk (Or.inl rfl) _ (Or.inl ⟨hy, hx⟩) | exact typeOf_rel_mk (Or.inl rfl) _ (Or.inr ⟨hy, hx⟩)
-          refine ⟨hty', wf_mk' (by intro a ha; simp at ha; rcases ha with rfl | rfl <;> assumption) rfl hty',
-            fun I hI hd => ?_, fun s hs => ?_⟩
+          refine Res.of_hyp hty' (wf_mk' (by intro a ha; simp at ha; rcases ha with rfl | rfl <;> assumption) rfl hty')
+            (fun I hI _ => ?_) (fun I hI hd => ?_) (fun s hs => ?_)
+          rotate_left
+          · have hd1 := div0_args_false I .le _ p rfl hd _ (show Term.node .minus [x, y] q ∈ _ by simp)
+            have hd2 := div0_args_false I .minus _ q rfl hd1
+            rw [e, div0_plain I .le _ _ rfl (by simp)]
+            simp only [List.any_cons, List.any_nil, hd2 y (by simp), hd2 x (by simp), Bool.or_self]
+          rotate_left
           · obtain ⟨n, hn⟩ := eval_real hwx hx hI
             obtain ⟨m, hm'⟩ := eval_real hwy hy hI
-            have hd1 := div0_args_false I .le _ p rfl hd _ (show Term.node .minus [x, y] q ∈ _ by simp)
-            have hd2 := div0_args_false I .minus _ q rfl hd1
-            rw [e, eval_le, eval_le, eval_minus, eval_realc, hn, hm', div0_plain I .le _ _ rfl (by simp)]
-            simp only [Sem.sub, Sem.le, List.any_cons, List.any_nil, hd2 y (by simp), hd2 x (by simp),
-              Bool.or_self, and_true]
+            rw [e, eval_le, eval_le, eval_minus, eval_realc, hn, hm']
+            simp only [Sem.sub, Sem.le]
             congr 1
             rw [decide_eq_decide]
             exact Rat.le_iff_sub_nonneg m n
@@ -455,10 +461,11 @@ theorem walkToReal_ok : RuleOK .toReal walkToReal := by
       have hty' : (Term.node .toReal [a] .none).typeOf = some .real := by
         rw [typeOf_node, typeOfNode_toReal]
         simp [allAre, hta]
-      refine ⟨hty', wf_mk' (wf_args hwf) rfl hty', fun I _ hd => ?_, fun s hs => ?_⟩
-      · rw [eval_toReal, eval_toReal, div0_plain I .toReal _ _ rfl (by simp)]
+      refine Res.of_hyp hty' (wf_mk' (wf_args hwf) rfl hty') (fun I _ _ => ?_) (fun I _ hd => ?_) (fun s hs => ?_)
+      · rw [eval_toReal, eval_toReal]
+      · rw [div0_plain I .toReal _ _ rfl (by simp)]
         rw [div0_plain I .toReal _ _ rfl (by simp)] at hd
-        exact ⟨rfl, hd⟩
+        exact hd
       · exact (mem_fv_plain (by simp) (by simp) rfl).mpr ((mem_fv_plain (by simp) (by simp) rfl).mp hs)
 
 end PySMT.Simp.BoolRules
